@@ -153,7 +153,8 @@ def shard(pid, tier, seed, idx, n_scripts, length):
             for fn in sorted(os.listdir(cdir)):
                 if fn.endswith(".json"):
                     item = json.load(open(os.path.join(cdir, fn)))
-                    handle(pid, item["script"], None, profile, drv, res, "corpus:" + fn)
+                    if item.get("engine", "ir") == "ir":
+                        handle(pid, item["script"], None, profile, drv, res, "corpus:" + fn)
         for j in range(n_scripts):
             rng = random.Random(stable_hash([seed, pid, idx, j]))
             L = rng.randint(max(5, length // 3), length)
@@ -214,5 +215,10 @@ def run(ctx):
     n_scripts = ctx.scale(40, 400)
     length = ctx.scale(80, 250)
     run_shards(ctx, shard, [(pid, ctx.tier, ctx.seed, i, n_scripts, length) for i in range(nshards)])
+    if pid == "C14":
+        # naming half: histories over colliding names / identifiers under both policies (shared with C10);
+        # P = identity-level data + table-derived lookup answers unchanged around every refused call
+        from engines import irnames
+        run_shards(ctx, irnames.shard, [("C14", ctx.tier, ctx.seed, i, ctx.scale(12, 100), ctx.scale(50, 90), True) for i in range(nshards)])
     if ctx.tier == "thorough":
         lean.leanchecker(ctx, MODULES[pid])
